@@ -564,6 +564,19 @@ pub fn gen_history(c: &mut Choices, fam: Option<FamId>) -> History {
             ops.push(gen_op(c, fam, nk));
         }
     }
+    // now and then a remove_insert / insert hands over the SIGNER's own public-key entry
+    for op in ops.iter_mut() {
+        match op {
+            Op::RemoveInsert { insert, k, .. } if *k < keys.len() && c.chance(40) => {
+                let at = c.below(insert.len() + 1);
+                insert.insert(at, (fam.key_name().to_vec(), fam.ref_pk(&keys[*k].0)));
+            }
+            Op::Insert { key, val, k } if *k < keys.len() && key.as_slice() == fam.key_name() && c.chance(100) => {
+                *val = TVal::Bytes(fam.ref_pk(&keys[*k].0));
+            }
+            _ => {}
+        }
+    }
     History { fam, keys, init, ops, fault_at: None, alt_keys: vec![] }
 }
 
@@ -640,6 +653,11 @@ pub fn alphabet(fam: FamId) -> Vec<Op> {
         Op::RemoveInsert { remove: vec![], insert: vec![(b"tcp66".to_vec(), vec![0, 0, 9]), (b"ip4".to_vec(), vec![1])], k: 0 },
         Op::Insert { key: vec![b'k'; 56], val: TVal::U8(1), k: 0 },
         Op::Insert { key: b"parent".to_vec(), val: TVal::Record { list: false }, k: 0 },
+        // the caller hands over the signer's own public-key entry (a re-key that "changes nothing" in the
+        // key entry as far as the displaced value is concerned), by the other key and by the own key
+        Op::RemoveInsert { remove: vec![], insert: vec![(kn.clone(), fam.ref_pk(&exhaustive_keys(fam)[1].0))], k: 1 },
+        Op::RemoveInsert { remove: vec![b"udp".to_vec()], insert: vec![(kn.clone(), fam.ref_pk(&exhaustive_keys(fam)[0].0)), (b"udp".to_vec(), vec![7])], k: 0 },
+        Op::Insert { key: kn.clone(), val: TVal::Bytes(fam.ref_pk(&exhaustive_keys(fam)[1].0)), k: 1 },
     ];
     if fam.scheme() == Scheme::Secp {
         a.push(Op::Insert { key: b"ed25519".to_vec(), val: TVal::Bytes(vec![5; 32]), k: 0 });
